@@ -225,6 +225,13 @@ func (r *c17Run) fail(what string, detail string) {
 
 func (r *c17Run) rebuild(p [][]string, g map[string][][]string) {
 	e, err := r.s.build(p, g, "")
+	if err != nil && r.s.ef == "sp" {
+		// subjectPriority sorts the rules by the role hierarchy when loading and rejects a cyclic
+		// hierarchy (links added by the run may close a cycle): go back to the base policy
+		r.c.Count("sp:cyclic-hierarchy-rejected-on-load")
+		p, g = r.s.p, r.s.g
+		e, err = r.s.build(p, g, "")
+	}
 	if err != nil {
 		panic(fmt.Sprint("build ", r.s.name, ": ", err))
 	}
@@ -414,6 +421,14 @@ func (r *c17Run) newLink(rng *rand.Rand, gt string, cur [][]string) []string {
 		for k := range l {
 			l[k] = pools[k][rng.Intn(len(pools[k]))]
 		}
+		// half of the time extend a node that already has roles (fan-out, chains, cycles)
+		if len(cur) > 0 && rng.Intn(2) == 0 {
+			src := cur[rng.Intn(len(cur))]
+			l[0] = src[rng.Intn(2)]
+			if ar >= 3 && len(src) >= 3 {
+				l[2] = src[2]
+			}
+		}
 		if !have[strings.Join(l, "\x00")] {
 			return l
 		}
@@ -444,6 +459,9 @@ func (r *c17Run) step(rng *rand.Rand) {
 	s, c := r.s, r.c
 	linkOK := s.ef == "ao" && s.negFree
 	op := rng.Intn(100)
+	if len(s.gTypes) > 0 && op < 48 && rng.Intn(3) == 0 {
+		op = 48 + rng.Intn(24) // models with role definitions: a third of the rule operations become link operations
+	}
 	switch {
 	case op < 22: // ---- add a rule (and maybe remove it again)
 		pol := c17GetP(r.e)
@@ -809,9 +827,9 @@ func c17EmptyPolicyWitness(c *Ctx) {
 
 func init() {
 	register("C17", func(c *Ctx) {
-		steps, genN, genSteps, maxReq := 40, 60, 14, 48
+		steps, genN, genSteps, maxReq := 60, 200, 24, 48
 		if c.Thorough() {
-			steps, genN, genSteps, maxReq = 1000, 1500, 60, 120
+			steps, genN, genSteps, maxReq = 1000, 2500, 80, 120
 		}
 		c.Rule = fmt.Sprintf("Specs: every examples/*_model.conf that has a policy file and string requests (%d pairs, skipped ones in the notes) and %d generated models (ACL, RBAC, RBAC with domains / resource roles / pattern role managers, keyMatch, keyMatch2, regexMatch, ipMatch with unparsable addresses, globMatch with a bad pattern, negated matchers, a matcher without policy fields; allow-override with and without eft column, deny-override, allow-and-deny, priority; 0-6 rules, 0-5 links per role definition). Requests: cross product (sampled down to %d) of, per request field, the values of the same-named policy column, the names in the role links when the field is an argument of g(), the example's test values, and one value occurring nowhere. CORRESPONDENCE: for the base state, for a third of the permuted / reloaded states and for the final state, every request is enforced on the real enforcer and, independently, on one single-rule probe enforcer per stored rule (same model text, same links, only rule i; allow-override probe for allow rules, deny-override probe for deny rules, indeterminate rules count as unmatched) and on a rule-free probe (policy-free branch); the extracted Meta.decide_vec folds the measured vector (stored order, lazy evaluation, errors) and must print the real decision and error flag. METAMORPHIC: %d random transformations per example (%d per generated model) of the current state: add rule (+remove), remove rule (+add back), refused duplicates, add link (+remove), remove link (+add back), same rules and links in another order through a fresh enforcer, LoadPolicy from an adapter listing another order, reset; after each one all decisions are compared under the relation the theorems give (allow-override: never revoke / never grant under the empty-policy guard, also for links when the matcher is negation-free; deny-override and allow-and-deny: a deny rule never grants; non-priority effects: permutation / reload / remove+add-back keep error-free decisions; add+remove and duplicates keep every outcome and the exact rule list; AddPolicy appends, RemovePolicy cuts out). Priority and subjectPriority models take part in correspondence, add/remove neutrality and duplicates only (order matters there by design). Non-trivial = a vector with a matched or failing slot; distinct by (spec, effect, vector, blank).", len(c17Examples), genN, maxReq, steps, genSteps)
 		var qualifying, negated []string
